@@ -518,6 +518,8 @@ class Facts:
             self.by_q[b.q].append(b)
         self.by_path = {b.path: b for b in self.bodies}
         self.adts = {a["path"]: a for a in self.j["adts"]}
+        for a in self.adts.values():
+            _parse_rr_attrs(a)
         self.impls = self.j["impls"]
         self.fns = self.j["fns"]
         self.closures_of = defaultdict(list)
@@ -590,3 +592,41 @@ def same_expr(a, b, depth=0):
     if k in ("local", "multi"):
         return a.local == b.local
     return False
+
+
+_RR = re.compile(r"#\[\s*rustradio\s*\(([^)]*)\)\s*\]")
+
+
+def _parse_rr_attrs(adt):
+    """Derive helper attributes are not kept in HIR; recover `#[rustradio(..)]` of the struct and of each
+    field from the item's own source text (emitted verbatim by E1)."""
+    pre = adt.get("pre") or ""
+    # only the attribute block directly above the item (stop at the first line that is not attr/doc/blank)
+    lines = pre.split("\n")
+    blk = []
+    for ln in reversed(lines):
+        t = ln.strip()
+        if t.startswith("#[") or t.startswith("///") or t.startswith("//") or t == "" or t.endswith("]"):
+            blk.append(t)
+        else:
+            break
+    sattrs = []
+    for t in blk:
+        if t.startswith("#["):
+            for m in _RR.finditer(t):
+                sattrs += [x.strip() for x in m.group(1).split(",") if x.strip()]
+    adt["rr"] = sattrs
+    src = adt.get("src") or ""
+    if adt["kind"] != "struct" or not adt["variants"]:
+        return
+    # strip comments
+    body = re.sub(r"//[^\n]*", "", src)
+    i = body.find("{")
+    body = body[i + 1:] if i >= 0 else ""
+    for f in adt["variants"][0]["fields"]:
+        m = re.search(r"((?:#\[[^\]]*\]\s*)*)(?:pub(?:\([^)]*\))?\s+)?\b%s\s*:" % re.escape(f["name"]), body)
+        attrs = []
+        if m:
+            for mm in _RR.finditer(m.group(1)):
+                attrs += [x.strip() for x in mm.group(1).split(",") if x.strip()]
+        f["rr"] = attrs
